@@ -248,9 +248,11 @@ def _check(case):
         if any(x is None or math.isnan(x) for x in lv.values()):
             col.fail("steady:missing_level", f"variant {v}: {lv}\n{lm.source(sv)}")
             continue
-        if spec["log"] and any(not (1e-6 < x < 1e6) for x in lv.values()):
+        if spec["log"] and (any(not (1e-6 < x < 1e6) for x in lv.values())
+                            or any(x is not None and not math.isnan(x) and not (1e-3 < x < 1e3) for x in ch.values())):
             # the solver's absolute residual test on level equations accepts x -> 0 as a pseudo-solution of
-            # multiplicative equations; such underflow points are not steady states and are not judged
+            # multiplicative equations (a level next to zero, or a growth factor that takes the path there within a
+            # period or two); such underflow points are not steady states and are not judged
             return {"labels": ["degenerate_near_zero_solution"], "nontrivial": False}
         _residual_check(col, sv, lv, ch, "steady:residual", f"(variant {v}, family {fam}, plan {case['plan']}, flat {case['flat']}, split {case['split']})")
         # planned quantities keep their assigned values
